@@ -253,8 +253,17 @@ def decode_assignment(ctx, rule='A5'):
     fn = inlined_view(ctx.prog, ctx.fn(f'{GP}.get_graph'))
     cfg = build_cfg(fn)
     sets = guards.call_nodes(cfg, 'set_des_var_value') + guards.call_nodes(cfg, 'correct_value')
-    if len(sets) < 2:
+    if not sets:
         raise AnalysisError('get_graph: design-variable assignment not found')
+    if len(sets) < 2:
+        # one of the two paths (materialised instance: set_des_var_value + read-back; vector only: correct_value) is
+        # gone: the value reported on that path is no longer the stored / corrected one
+        ctx.ob(rule, fkey(fn, rule, 'reports-corrected-value'), False, fn.where,
+               'the corrected vector reports graph_instance.des_var_value(node) (materialised) or '
+               'node.correct_value(x)[0] (not materialised), never the input entry',
+               f'only `{call_name([c for c in ast.walk(sets[0].ast) if isinstance(c, ast.Call)][0])}` is left: one of '
+               f'the two paths reports an uncorrected value')
+        return
     # under the existence test of that node
     # loop variables that are elements of the existence array: `for node, exists in zip(nodes, dv_node_existence)`
     zipped = set()
@@ -310,6 +319,10 @@ def check(ctx):
     from ..rules import persist, decode
     fns, _ = decode.decode_slice(ctx)
     n = persist.check_memo_functions(ctx, [f for f in fns if f.module.name.startswith('adsg_core.optimization.graph_processor') or f.module.name.startswith('adsg_core.optimization.hierarchy')])
+    # the instance the values are written to is the caller's own: what get_graph returns is never an object that is
+    # still stored in one of the caches (a later decode would write other values into it)
+    ps16 = persist.Persist(ctx, [ctx.fn(f'{GP}.get_graph')], fns)
+    ps16.check_escape(ctx.fn(f'{GP}.get_graph'), position=0)
     ctx.note(f'A2p: {n} memoising stores on the value-assignment path (graph processor, hierarchy analyzers)')
     ctx.floor('A16', 40, 'regions of correct_value')
     ctx.floor('A6', 4, 'stores in set_des_var_value')
